@@ -732,7 +732,7 @@ func TestVerifC03rateZero(t *testing.T) {
 				res.Count(1, len(outs))
 				res.Set("zero_"+c.name+"_"+fam, fmt.Sprint(outs))
 				if refused > 0 {
-					res.AddMismatch(vfh.Mismatch{Class: "rate-subnet-zero-rps-not-unlimited", Walk: -1,
+					res.AddMismatch(vfh.Mismatch{Class: "L2:rate-subnet-zero-rps-not-unlimited", Walk: -1, // as coded; an observation about x/rate's own doc comment, not a clause of a listed property
 						What: fmt.Sprintf("SubnetLimit{PrefixLength, Limit%+v} (%s): %d of %d requests an hour apart refused; Limiter's doc: \"Use 0 for no rate limiting\" (GlobalLimit and NetworkPrefixLimits honour it)",
 							c.lim, fam, refused, len(outs)), Expected: "all allowed", Got: outs})
 				}
